@@ -4,8 +4,9 @@
   outside the model: the harness sets them directly — partly partial).
 -/
 import BEI.Model.Reader
+import BEI.Props.C05
 namespace BEI.Props.C16
-open BEI
+open BEI BEI.Props.C05
 
 /-- the reader at the start of a frame (`update_state` has run) -/
 def start (raw : RawInput) (dev : Device) : Reader := ({ raw := raw, device := dev } : Reader).updateState
@@ -51,5 +52,156 @@ example :
     let raw : RawInput := { keys := [0, 10], mouseButtons := [0], uiActive := true }
     (start raw .any).value (.mbtn 0 {}) = .bool false ∧ (start raw .any).value (.key 0 { control := true }) = .bool true := by
   decide
+
+/-! ### lifting to the whole frame -/
+
+/-- A predicate on readers that `consume` and `set_gamepad` preserve is preserved by the whole frame update: the reader is
+    only ever changed by those two operations while the registry is evaluated. -/
+structure ReaderInv (P : Reader → Prop) : Prop where
+  consume : ∀ r i, P r → P (r.consume i)
+  setGamepad : ∀ r d, P r → P (r.setGamepad d)
+
+theorem foldl_consume_inv {P : Reader → Prop} (hP : ReaderInv P) (is : List Input) : ∀ r, P r → P (is.foldl Reader.consume r) := by
+  induction is with
+  | nil => intro r h; exact h
+  | cons i is ih => intro r h; exact ih _ (hP.consume r i h)
+
+theorem update_inv {P : Reader → Prop} (hP : ReaderInv P) (ab : ActionBind) (r : Reader) (av : ActionsView) (t : Tick)
+    (es : List Nat) (o : ActionBind.Out) (h : ab.update r av t es = some o) (hr : P r) : P o.reader := by
+  obtain ⟨_, _, _, hreader, _⟩ := update_consumes ab r av t es o h
+  rw [hreader]
+  exact foldl_consume_inv hP _ r hr
+
+theorem loopActions_inv {P : Reader → Prop} (hP : ReaderInv P) (t : Tick) (es : List Nat) :
+    ∀ (bs : List ActionBind) (r : Reader) (av : ActionsView) bs' r' av' dl lg,
+      ContextInstance.loopActions r av t es bs = some (bs', r', av', dl, lg) → P r → P r' := by
+  intro bs
+  induction bs with
+  | nil =>
+    intro r av bs' r' av' dl lg h hj
+    simp only [ContextInstance.loopActions, Option.some.injEq, Prod.mk.injEq] at h
+    obtain ⟨_, rfl, _, _, _⟩ := h
+    exact hj
+  | cons ab rest ih =>
+    intro r av bs' r' av' dl lg h hj
+    simp only [ContextInstance.loopActions] at h
+    split at h
+    · cases h
+    · rename_i o ho
+      split at h
+      · cases h
+      · rename_i rest' r'' av'' dl' lg' hrest
+        simp only [Option.some.injEq, Prod.mk.injEq] at h
+        obtain ⟨_, rfl, _, _, _⟩ := h
+        exact ih _ _ _ _ _ _ _ hrest (update_inv hP ab r av t es o ho hj)
+
+theorem instance_inv {P : Reader → Prop} (hP : ReaderInv P) (ci : ContextInstance) (r : Reader) (t : Tick) (es : List Nat)
+    (o : ContextInstance.Out) (h : ci.update r t es = some o) (hj : P r) : P o.reader := by
+  unfold ContextInstance.update at h
+  split at h
+  · cases h
+  · rename_i bs r' av' dl lg hl
+    simp only [Option.some.injEq] at h
+    subst h
+    exact loopActions_inv hP t es _ _ _ _ _ _ _ _ hl (hP.setGamepad r _ hj)
+
+theorem updateExclusive_inv {P : Reader → Prop} (hP : ReaderInv P) (t : Tick) :
+    ∀ (is : List (Nat × ContextInstance)) (r : Reader) is' r' dl lg,
+      Registry.updateExclusive r t is = some (is', r', dl, lg) → P r → P r' := by
+  intro is
+  induction is with
+  | nil =>
+    intro r is' r' dl lg h hj
+    simp only [Registry.updateExclusive, Option.some.injEq, Prod.mk.injEq] at h
+    obtain ⟨_, rfl, _, _⟩ := h
+    exact hj
+  | cons p ps ih =>
+    intro r is' r' dl lg h hj
+    obtain ⟨e, ctx⟩ := p
+    simp only [Registry.updateExclusive] at h
+    split at h
+    · cases h
+    · rename_i o ho
+      split at h
+      · cases h
+      · rename_i rest' r'' dl' lg' hrest
+        simp only [Option.some.injEq, Prod.mk.injEq] at h
+        obtain ⟨_, rfl, _, _⟩ := h
+        exact ih _ _ _ _ _ hrest (instance_inv hP ctx r t [e] o ho hj)
+
+theorem registry_inv {P : Reader → Prop} (hP : ReaderInv P) (t : Tick) :
+    ∀ (reg : Registry) (r : Reader) (o : Registry.Out), Registry.update r t reg = some o → P r → P o.reader := by
+  intro reg
+  induction reg with
+  | nil => intro r o h hj; simp only [Registry.update, Option.some.injEq] at h; subst h; exact hj
+  | cons g rest ih =>
+    intro r o h hj
+    cases g with
+    | exclusive ty is =>
+      simp only [Registry.update] at h
+      split at h
+      · cases h
+      · rename_i is' r' dl lg hex
+        split at h
+        · cases h
+        · rename_i o' ho'
+          simp only [Option.some.injEq] at h
+          subst h
+          exact ih r' o' ho' (updateExclusive_inv hP t _ _ _ _ _ _ hex hj)
+    | shared ty es ctx =>
+      simp only [Registry.update] at h
+      split at h
+      · cases h
+      · rename_i oc hoc
+        split at h
+        · cases h
+        · rename_i o' ho'
+          simp only [Option.some.injEq] at h
+          subst h
+          exact ih oc.reader o' ho' (instance_inv hP ctx r t es oc hoc hj)
+
+/-- the UI flag and the raw device state are untouched by everything the frame update does to the reader -/
+theorem flagInv (raw : RawInput) (b : Bool) : ReaderInv (fun r => r.raw = raw ∧ r.consumed.uiWantsMouse = b) where
+  consume := by
+    intro r i h
+    refine ⟨?_, by rw [consume_keeps_flag]; exact h.2⟩
+    cases i <;> exact h.1
+  setGamepad := by intro r d h; exact h
+
+/-- whatever the reader has been through, while the flag is set every mouse-sourced input reads inactive under every
+    gamepad selection -/
+theorem masked_reader (r : Reader) (h : r.consumed.uiWantsMouse = true) (dev : Device) (b : Nat) (m : ModKeys) :
+    (r.setGamepad dev).value (.mbtn b m) = .bool false
+    ∧ (r.setGamepad dev).value (.motion m) = .a2 0 0
+    ∧ (r.setGamepad dev).value (.wheel m) = .a2 0 0 := by
+  simp [Reader.setGamepad, Reader.value, h]
+
+/-- **(1) for the whole frame**: in a frame with an interacted UI element the reader every context is evaluated with —
+    whatever was evaluated and consumed before it, in any registry — still masks every mouse-sourced input; split the
+    registry anywhere (`before ++ after`): the reader handed to `after` masks the mouse. -/
+theorem ui_masks_mouse_all_frame (raw : RawInput) (h : raw.uiActive = true) (t : Tick) (before : Registry) (o : Registry.Out)
+    (hu : Registry.update (start raw .any) t before = some o) (dev : Device) (b : Nat) (m : ModKeys) :
+    (o.reader.setGamepad dev).value (.mbtn b m) = .bool false
+    ∧ (o.reader.setGamepad dev).value (.motion m) = .a2 0 0
+    ∧ (o.reader.setGamepad dev).value (.wheel m) = .a2 0 0 := by
+  have h0 : (start raw .any).raw = raw ∧ (start raw .any).consumed.uiWantsMouse = true := by
+    constructor
+    · rfl
+    · rw [start, flag_recomputed]; exact h
+  have := registry_inv (flagInv raw true) t before _ o hu h0
+  exact masked_reader o.reader this.2 dev b m
+
+/-- the flag is constant over the frame: at every point of the evaluation it is "some element is interacted with now" -/
+theorem ui_flag_constant (raw : RawInput) (t : Tick) (before : Registry) (o : Registry.Out)
+    (hu : Registry.update (start raw .any) t before = some o) : o.reader.consumed.uiWantsMouse = raw.uiActive := by
+  have h0 : (start raw .any).raw = raw ∧ (start raw .any).consumed.uiWantsMouse = raw.uiActive := ⟨rfl, by rw [start, flag_recomputed]⟩
+  exact (registry_inv (flagInv raw raw.uiActive) t before _ o hu h0).2
+
+/-- **(2) for every reader**: what a keyboard or gamepad binding reads does not depend on the UI flag at all -/
+theorem ui_flag_irrelevant_for_keys_and_pads (r : Reader) (f : Bool) (k : Nat) (m : ModKeys) (b x : Nat) :
+    let r' : Reader := { r with consumed := { r.consumed with uiWantsMouse := f } }
+    r'.value (.key k m) = r.value (.key k m) ∧ r'.value (.padBtn b) = r.value (.padBtn b)
+      ∧ r'.value (.padAxis x) = r.value (.padAxis x) := by
+  simp [Reader.value, Reader.modKeysPressed, Reader.modsDown, Reader.findPad]
 
 end BEI.Props.C16
